@@ -170,6 +170,13 @@ pub fn receive_cw20(
                 return Err(ContractError::Unauthorized {});
             }
 
+            // the offered asset must be the token that actually sent the funds
+            if !offer_asset.info.equal(&AssetInfo::Token {
+                contract_addr: info.sender.to_string(),
+            }) {
+                return Err(ContractError::AssetMismatch {});
+            }
+
             let to_addr = if let Some(to_addr) = to {
                 Some(deps.api.addr_validate(to_addr.as_str())?)
             } else {
